@@ -28,23 +28,25 @@ Record impl_obs := mkIO {
   io_rules : list N;        (* rule numbers compatible with the implementation's error class; [0] = accepted *)
   io_db_same : bool;        (* whole sorted DB dump identical before/after *)
   io_events : list ev;
-  io_tip_after : bstr; io_fin_after : N; io_cs_after : N }.
+  io_tip_after : bstr; io_fin_after : N; io_cs_after : N;
+  io_app_after : bstr;      (* state root the application (ABI double) holds committed after the case *)
+  io_abi_commits : N; io_abi_reverts : N }.   (* ABI Commit / Revert calls during the case *)
 
 Record pv_case := mkPV {
-  c_tip : header; c_fin : N; c_cs : N; c_block : block; c_pe : payload_env; c_ve : venv; c_xe : xenv; c_io : impl_obs }.
+  c_tip : header; c_fin : N; c_cs : N; c_app : bstr; c_block : block; c_pe : payload_env; c_ve : venv; c_xe : xenv; c_io : impl_obs }.
 
 Definition tip_id (s : node) : bstr :=
   match tip_header s with Some h => h_id h | None => mkB 0 0 end.
 
 Definition state_agrees (s' : node) (io : impl_obs) : bool :=
   beq (tip_id s') (io_tip_after io) && (n_finalized s' =? io_fin_after io) && (n_cs s' =? io_cs_after io)
-  && evs_eqb (map enc_pub (n_emitted s')) (io_events io).
+  && evs_eqb (map enc_pub (n_emitted s')) (io_events io) && beq (n_app s') (io_app_after io).
 
 Definition impl_accepted (io : impl_obs) : bool := existsb (N.eqb 0) (io_rules io).
 
 Definition check_pv (c : pv_case) : N :=
   let tipb := mkBlk (c_tip c) [] [] in
-  let s := mkNode [tipb] (c_cs c) (c_fin c) [] in
+  let s := mkNode [tipb] (c_cs c) (c_fin c) [] (c_app c) in
   let b := c_block c in
   let io := c_io c in
   let '(o, s') := receive s b (c_pe c) (c_ve c) (c_xe c) in
@@ -62,17 +64,20 @@ Definition check_pv (c : pv_case) : N :=
       (if impl_accepted io
        then beq (io_tip_after io) (h_id (b_header b)) && (io_fin_after io =? N.max (c_fin c) (xe_post_precommit x))
             && (io_cs_after io =? xe_post_cs x) && evs_eqb (io_events io) spec_events
+            && beq (io_app_after io) (h_stateroot (b_header b)) && (io_abi_commits io =? io_abi_reverts io + 1)
        else io_db_same io && evs_eqb (io_events io) [] && beq (io_tip_after io) (h_id (c_tip c))
-            && (io_fin_after io =? c_fin c) && (io_cs_after io =? c_cs c)) in
+            && (io_fin_after io =? c_fin c) && (io_cs_after io =? c_cs c)
+            (* no trace in the application either: no net ABI commit *)
+            && beq (io_app_after io) (c_app c) && (io_abi_commits io =? io_abi_reverts io)) in
   code agree_model agree_spec.
 
 (* tie-break scenario: chain = [parent; old tip]; the competing block is processed with class TieBreak *)
 Record tb_case := mkTB {
-  t_prev : block; t_old : block; t_fin : N; t_cs : N; t_new : block; t_pe : payload_env; t_ve : venv; t_xe : xenv;
+  t_prev : block; t_old : block; t_fin : N; t_cs : N; t_app : bstr; t_new : block; t_pe : payload_env; t_ve : venv; t_xe : xenv;
   t_del_cs : N; t_old_ve : venv; t_old_xe : xenv; t_io : impl_obs }.
 
 Definition check_tb (c : tb_case) : N :=
-  let s := mkNode [t_prev c; t_old c] (t_cs c) (t_fin c) [] in
+  let s := mkNode [t_prev c; t_old c] (t_cs c) (t_fin c) [] (t_app c) in
   let io := t_io c in
   let '(o, s') := process s (t_new c) TieBreak (t_pe c) (t_ve c) (t_xe c)
                           (mkTE (mkDE true true (t_del_cs c)) (t_old_ve c) (t_old_xe c)) in
